@@ -1,0 +1,93 @@
+//! Virtual clock. In virtual mode `Instant::now()` is a fixed base plus an offset that
+//! only `advance` moves; otherwise it is `std::time::Instant::now()`.
+use std::sync::atomic::{AtomicBool, AtomicU64, Ordering};
+use std::sync::{Mutex, OnceLock, Weak};
+use std::time::Duration;
+
+static VIRTUAL: AtomicBool = AtomicBool::new(false);
+static OFFSET_NS: AtomicU64 = AtomicU64::new(0);
+
+fn base() -> std::time::Instant {
+    static BASE: OnceLock<std::time::Instant> = OnceLock::new();
+    *BASE.get_or_init(std::time::Instant::now)
+}
+
+/// Something that wants to hear about clock advances (virtual timers).
+pub(crate) trait Alarm: Send + Sync {
+    fn clock_advanced(&self, now_ns: u64);
+}
+
+fn alarms() -> &'static Mutex<Vec<Weak<dyn Alarm>>> {
+    static ALARMS: OnceLock<Mutex<Vec<Weak<dyn Alarm>>>> = OnceLock::new();
+    ALARMS.get_or_init(|| Mutex::new(Vec::new()))
+}
+
+pub(crate) fn register_alarm(a: Weak<dyn Alarm>) {
+    let mut v = alarms().lock().unwrap_or_else(|e| e.into_inner());
+    v.retain(|w| w.strong_count() > 0);
+    v.push(a);
+}
+
+/// Switch virtual mode on (resetting the clock to 0) or off.
+pub fn set_virtual(on: bool) {
+    OFFSET_NS.store(0, Ordering::SeqCst);
+    VIRTUAL.store(on, Ordering::SeqCst);
+    alarms()
+        .lock()
+        .unwrap_or_else(|e| e.into_inner())
+        .clear();
+}
+
+pub fn is_virtual() -> bool {
+    VIRTUAL.load(Ordering::SeqCst)
+}
+
+/// Current virtual time in nanoseconds since `set_virtual(true)`.
+pub fn now_ns() -> u64 {
+    OFFSET_NS.load(Ordering::SeqCst)
+}
+
+/// Earliest deadline (ns) of any live virtual timer, if any.
+pub fn next_deadline_ns() -> Option<u64> {
+    super::timer::next_deadline_ns()
+}
+
+/// Advance the virtual clock to `to_ns` (monotonic) and let timers that are due raise
+/// their readiness.
+pub fn advance_to(to_ns: u64) {
+    let cur = OFFSET_NS.load(Ordering::SeqCst);
+    if to_ns > cur {
+        OFFSET_NS.store(to_ns, Ordering::SeqCst);
+    }
+    let now = OFFSET_NS.load(Ordering::SeqCst);
+    let list: Vec<_> = alarms()
+        .lock()
+        .unwrap_or_else(|e| e.into_inner())
+        .iter()
+        .filter_map(|w| w.upgrade())
+        .collect();
+    for a in list {
+        a.clock_advanced(now);
+    }
+}
+
+#[derive(Clone, Copy, Debug, PartialEq, Eq, PartialOrd, Ord)]
+pub struct Instant(std::time::Instant);
+
+impl Instant {
+    pub fn now() -> Instant {
+        if VIRTUAL.load(Ordering::SeqCst) {
+            Instant(base() + Duration::from_nanos(OFFSET_NS.load(Ordering::SeqCst)))
+        } else {
+            Instant(std::time::Instant::now())
+        }
+    }
+
+    pub fn elapsed(&self) -> Duration {
+        Instant::now().0.saturating_duration_since(self.0)
+    }
+
+    pub fn duration_since(&self, earlier: Instant) -> Duration {
+        self.0.saturating_duration_since(earlier.0)
+    }
+}
